@@ -6,6 +6,7 @@ to the database).  `Put` refines `Trie.put` and keeps it (`insertF_tree`); `Snap
 new generation owns nothing); `WriteDirty` keeps it and makes the database represent `T`.
 -/
 import Gossamer.Lib.C04Put
+import Gossamer.Lib.C04Del
 namespace Gossamer
 namespace TrieHeap
 open Trie TrieCodec
@@ -118,6 +119,104 @@ theorem put_cinv (H : Bytes → Bytes) (hH : ∀ m, (H m).length = 32) {hp : Hea
       rw [hy]
       exact ⟨N', fp', hti', hnd'⟩
 
+theorem cinv_root_lt {H : Bytes → Bytes} {hp : Heap} {db : DB} {h : Handle} {T : Trie}
+    (inv : CInv H hp db h T) : ∀ r, h.root = some r → r < hp.size := by
+  intro r hr
+  have := inv.root; rw [hr] at this
+  obtain ⟨N, fp, hti, _⟩ := this
+  cases T with
+  | nil => exact hti.rep.elim
+  | leaf _ _ => exact hti.fp.1
+  | branch _ _ _ => exact hti.fp.1
+
+/-- wellformedness and the generation bound after a mutating method -/
+theorem topOK_gens {H : Bytes → Bytes} {hp : Heap} {h : Handle} {hp' : Heap} {h' : Handle}
+    (ok : TopOK H hp h hp' h') (hg : ∀ x, (hp.get x).gen ≤ h.gen) : ∀ x, (hp'.get x).gen ≤ h.gen := by
+  intro x
+  by_cases h1 : x < hp.size
+  · rw [ok.good.gen x h1]; exact hg x
+  · by_cases h2 : x < hp'.size
+    · rw [ok.good.fresh x (by show hp.size ≤ x; omega) h2]; exact Nat.le_refl _
+    · rw [Heap.get_of_size_le (by omega)]; exact Nat.zero_le _
+
+theorem rootTI_of_outO {H : Bytes → Bytes} {G : Bytes → Bytes → Prop} {hp : Heap} {g : Nat} {fp : List Nat}
+    {hp' : Heap} {t' : Trie} {y : Option Nat} (h : OutO H G hp g true fp hp' t' y) : RootTI H G hp' g t' y := by
+  cases y with
+  | none => exact h.1
+  | some y =>
+    obtain ⟨N', fp', hti, hnd, _⟩ := h.ti
+    exact ⟨N', fp', hti, hnd⟩
+
+theorem delete_cinv (H : Bytes → Bytes) (hH : ∀ m, (H m).length = 32) {hp : Heap} {db : DB} {h : Handle} {T : Trie}
+    (inv : CInv H hp db h T) (hd : depth T ≤ bigFuel + 1) (k : Bytes) :
+    CInv H (delete H hp h k).1 db (delete H hp h k).2 (Trie.delete T k) := by
+  have ok := delete_ok H hp h inv.wf (cinv_root_lt inv) k
+  refine ⟨ok.good.wf, fun x => by rw [ok.gen]; exact topOK_gens (h := h) ok inv.gens x, inv.dbok, ?_⟩
+  unfold delete Trie.delete
+  dsimp only
+  cases hr : h.root with
+  | none =>
+    have hT : T = .nil := by have := inv.root; rw [hr] at this; exact this
+    subst hT
+    have hdn : deleteF (h.ctx H) ((Trie.keyLEToNibbles k).length + 1) hp none (Trie.keyLEToNibbles k) =
+        (hp, none, false) := rfl
+    rw [hdn]
+    show RootTI H (Mem db) hp h.gen (deleteAtNode .nil (Trie.keyLEToNibbles k)).1 none
+    rfl
+  | some a =>
+    have := inv.root; rw [hr] at this
+    obtain ⟨N, fp, hti, hnd⟩ := this
+    have hflav : ((h.ctx H).troot == some a) = true := by simp [Handle.ctx, hr]
+    have hroot : ∀ x, (h.ctx H).troot = some x → x = a := by
+      intro x hx
+      have : some x = some a := by rw [← hx]; exact hr
+      injection this
+    have hra : RootAbove (h.ctx H) hp T := by
+      intro x t' N' hx hrx
+      rw [hroot x hx] at hrx
+      rw [(HRep.func _ _ _ _ _ hti.rep hrx).1]; exact Nat.le_refl _
+    have post := deleteF_tree H hH (Mem db) (h.ctx H) rfl rfl ((Trie.keyLEToNibbles k).length + 1) hp T N a fp
+      true (Trie.keyLEToNibbles k) hti hnd hflav hra
+      (fun x hx => by rw [hroot x hx]; exact cinv_root_lt inv a hr) hd (Nat.lt_succ_self _)
+    exact rootTI_of_outO post.out
+
+theorem clearPrefix_cinv (H : Bytes → Bytes) (hH : ∀ m, (H m).length = 32) {hp : Heap} {db : DB} {h : Handle}
+    {T : Trie} (inv : CInv H hp db h T) (hd : depth T ≤ bigFuel + 1) (p : Bytes) :
+    CInv H (clearPrefix H hp h p).1 db (clearPrefix H hp h p).2 (Trie.clearPrefix T p) := by
+  have ok := clearPrefix_ok H hp h inv.wf (cinv_root_lt inv) p
+  refine ⟨ok.good.wf, fun x => by rw [ok.gen]; exact topOK_gens (h := h) ok inv.gens x, inv.dbok, ?_⟩
+  unfold clearPrefix Trie.clearPrefix
+  by_cases hp0 : p.length = 0
+  · simp only [if_pos hp0]
+    rfl
+  · simp only [if_neg hp0]
+    cases hr : h.root with
+    | none =>
+      have hT : T = .nil := by have := inv.root; rw [hr] at this; exact this
+      subst hT
+      have hdn : clearPrefixF (h.ctx H) ((trimZero (Trie.keyLEToNibbles p)).length + 1) hp none
+          (trimZero (Trie.keyLEToNibbles p)) = (hp, none, false) := rfl
+      rw [hdn]
+      show RootTI H (Mem db) hp h.gen (clearPrefixAtNode .nil (trimZero (Trie.keyLEToNibbles p))).1 none
+      rfl
+    | some a =>
+      have := inv.root; rw [hr] at this
+      obtain ⟨N, fp, hti, hnd⟩ := this
+      have hflav : ((h.ctx H).troot == some a) = true := by simp [Handle.ctx, hr]
+      have hroot : ∀ x, (h.ctx H).troot = some x → x = a := by
+        intro x hx
+        have : some x = some a := by rw [← hx]; exact hr
+        injection this
+      have hra : RootAbove (h.ctx H) hp T := by
+        intro x t' N' hx hrx
+        rw [hroot x hx] at hrx
+        rw [(HRep.func _ _ _ _ _ hti.rep hrx).1]; exact Nat.le_refl _
+      have post := clearPrefixF_tree H hH (Mem db) (h.ctx H) rfl rfl
+        ((trimZero (Trie.keyLEToNibbles p)).length + 1) hp T N a fp
+        true (trimZero (Trie.keyLEToNibbles p)) hti hnd hflav hra
+        (fun x hx => by rw [hroot x hx]; exact cinv_root_lt inv a hr) hd (Nat.lt_succ_self _)
+      exact rootTI_of_outO post.out
+
 theorem snapshot_cinv (H : Bytes → Bytes) {hp : Heap} {db : DB} {h : Handle} {T : Trie}
     (inv : CInv H hp db h T) : CInv H hp db (snapshot h) T := by
   refine ⟨inv.wf, fun x => Nat.le_succ_of_le (inv.gens x), inv.dbok, ?_⟩
@@ -154,6 +253,57 @@ theorem writeDirty_cinv (H : Bytes → Bytes) (hH : ∀ m, (H m).length = 32) {h
       obtain ⟨N, fp, hti, hnd⟩ := this
       obtain ⟨_, _, h3, h4, _, _⟩ := writeDirty_stoG H hH hp db h a hr T N hti.rep hti.coh hd
       exact ⟨N, fp, ⟨h3, fp_cacheOnly hco T a fp hti.fp, h4⟩, hnd⟩
+
+/-! ### the model's own `Get` on a represented trie -/
+
+theorem retrieveF_hrep : ∀ (f : Nat) (hp : Heap) (t : Trie) (N : Node) (a : Nat) (key : Nibs),
+    HRep hp t N a → key.length < f → retrieveF f hp (some a) key = Trie.retrieve t key
+  | 0, _, _, _, _, _, _, hf => absurd hf (Nat.not_lt_zero _)
+  | f + 1, hp, .nil, _, _, _, h, _ => h.elim
+  | f + 1, hp, .leaf pk v, N, a, key, h, _ => by
+    obtain ⟨h1, h2, h3, _, _⟩ := h
+    unfold retrieveF Trie.retrieve
+    simp only [h1, Bool.not_false, if_true, h2, h3]
+  | f + 1, hp, .branch pk v cs, N, a, key, h, hf => by
+    obtain ⟨h1, h2, h3, kn, _, hk⟩ := h
+    unfold retrieveF Trie.retrieve
+    simp only [h1, Bool.not_true, Bool.false_eq_true, if_false, h2, h3]
+    split
+    · rfl
+    · split
+      · rfl
+      · rcases hdk : key.drop pk.length with _ | ⟨i, rest⟩
+        · rfl
+        · dsimp only
+          have hlen : rest.length < f := by
+            have := congrArg List.length hdk
+            simp only [List.length_drop, List.length_cons] at this
+            omega
+          have := hk i
+          cases hkid : (hp.get a).kids i with
+          | none =>
+            rw [hkid] at this
+            rw [this.1]
+            cases f <;> rfl
+          | some ch =>
+            rw [hkid] at this
+            exact retrieveF_hrep f hp (cs i) (kn i) ch rest this.2 hlen
+
+/-- in every state of a line, `Get` of the heap trie is `Get` of the pure trie -/
+theorem cinv_get {H : Bytes → Bytes} {hp : Heap} {db : DB} {h : Handle} {T : Trie} (inv : CInv H hp db h T)
+    (k : Bytes) : get hp h.root k = Trie.get T k := by
+  unfold get Trie.get
+  have := inv.root
+  cases hr : h.root with
+  | none =>
+    rw [hr] at this
+    have hT : T = .nil := this
+    subst hT
+    rfl
+  | some a =>
+    rw [hr] at this
+    obtain ⟨N, fp, hti, _⟩ := this
+    exact retrieveF_hrep _ hp T N a _ hti.rep (Nat.lt_succ_self _)
 
 end TrieHeap
 end Gossamer
